@@ -119,7 +119,9 @@ theorem addLine_mkLine (neg abs dir : Bool) (comps : List (List Nat)) (h : okCom
   rw [lineOf_trim neg abs dir hlast hwsl hnl.2.2.2.2.2.2.2.2.2.2, lineOf_ne_nil neg abs dir hcore]
   simp only [Bool.false_eq_true, ↓reduceIte]
   rw [lineOf_splitPrefix neg abs dir hcore ⟨hn0.1, hn0.2.2.2.2.2.2.2.2.1, hn0.2.2.2.2.2.2.2.1⟩]
-  simp only
+  have hne2 : (joinPath comps ++ (if dir then [47] else [])).isEmpty = false := by
+    rw [hcore]; simp
+  simp only [hne2, Bool.false_eq_true, ↓reduceIte]
   rw [splitDirSlash_core dir hlast ⟨hnl.2.2.2.2.2.2.2.1, hnl.1⟩]
   simp only
   rw [actualOf_core abs _ hcore hn0.2.1 hlast hnl.2.1 hf.slash]
